@@ -147,6 +147,17 @@ def h_block(ctx, txshapes):
     ctx.check(blk.get_header().serialize() == W.header(ctx, hf), 'get_header() == the 80 header bytes')
     back = C.CBlock.deserialize(blk.serialize())
     ctx.check(back.GetHash() == want, 'deserialised block hash == header hash')
+    # blocks from the wire whose merkle-root field is all zero / arbitrary (not the root of the transactions carried):
+    # the identifier is still the hash of the 80 bytes received
+    for what, root in (('zero root field', ctx.B(bytes(32))), ('arbitrary root field', ctx.bytes('wire_root', 32))):
+        hw = dict(hf)
+        hw['hashMerkleRoot'] = root
+        raw = W.block(ctx, hw, tfs)
+        wb = C.CBlock.deserialize(raw)
+        w80 = _dsha(ctx, W.header(ctx, hw))
+        ctx.check(wb.GetHash() == w80, 'deserialised block hash == header hash', detail=what)
+        ctx.check(wb.get_header().serialize() == W.header(ctx, hw), 'get_header() == the 80 header bytes', detail=what)
+        ctx.check(wb.get_header().GetHash() == w80, 'get_header().GetHash()', detail=what)
 
 
 HARNESSES = {'txid': h_txid, 'twins': h_twins, 'edited': h_edited, 'block': h_block}
